@@ -6,7 +6,7 @@ from vlib.core import Case
 ID = "C15"
 LEAN_MODULE = "Ctrmml.Properties.C15"
 THEOREMS = ["C15_parse_routed", "C15_reader_never_foreign", "C15_wav_reader_total", "C15_validator_never_out_of_range",
-            "C15_validate_routed", "C15_pipeline_total_partial", "C15_pipeline_terminates", "C15_modelled_components_never_foreign"]
+            "C15_validate_routed", "C15_parsed_song_validates", "C15_pipeline_total_partial", "C15_pipeline_terminates", "C15_modelled_components_never_foreign"]
 LEVEL = "other"
 STREAM = "total"
 HARNESS_VARIANT = "align"      # the C15 harness keeps UBSan's alignment check (D22)
@@ -24,9 +24,9 @@ RULE = ("byte strings given as an MML file (+ side files): corpus of every defec
         "ASan+UBSan (alignment check on) in a forked child; a sample is also given to the built mmlc/mdslink executables. "
         "non-trivial = every case (all carry tags); distinct by request text")
 EXPLANATION = ("Proof side (Properties/C15): the pipeline model (Model/Pipeline) composes the stage models of the other properties; the parse stage "
-               "(whole MML reader, every byte string), the validate stage (every song without explicit END events) and sample loading (every byte "
-               "string as a WAV file) are theorems: their outcome is never `foreign`; the optimiser, the mds converter's UB constructors and four "
-               "residual stages without a model (VGM play loop, linker, definitions outside C09/C11's models, explicit END events) are explicit "
+               "(whole MML reader, every byte string), the validate stage (every song without explicit END events — which includes every song the reader can produce) and sample loading (every byte "
+               "string as a WAV file) are theorems: their outcome is never `foreign`; the optimiser, the mds converter's UB constructors and three "
+               "residual stages without a model (VGM play loop, linker, definitions outside C09/C11's models) are explicit "
                "hypotheses of the composite theorem. Execution side: every generated text runs through the real code in-process under ASan+UBSan "
                "(alignment check on) in a forked child; the judge applies the outcome set {ok, InputError with a message} to the implementation's "
                "answer. Correspondence: the compiled pipeline model (Driver/Total.lean) names the first stage whose outcome is not ok and its class "
@@ -698,14 +698,13 @@ LEVEL_TEXT = ("Level `other` (mixed proof + execution, stated as partial). PROVE
               "terminates in success or one of the player's messages, and its vector::at can never throw (C15_validate_routed, C15_validator_never_out_of_range; from C04 + a new invariant); "
               "(3) sample files — load_file + Wave_File::read on every byte string return a decoded file or 'not found' without reading outside the buffer or stalling (C15_wav_reader_total, from C14); "
               "(4) RIFF reader, conf parser, VGM writer have no UB outcome (collected from C13/C20/C08); (5) the composition: if the optimiser stage, the mds converter's UB constructors and the "
-              "four residual stages are routed then the whole pipeline is, with enough validator steps and optimiser passes (C15_pipeline_total_partial, C15_pipeline_terminates). "
+              "three residual stages are routed then the whole pipeline is, with enough validator steps and optimiser passes (C15_pipeline_total_partial, C15_pipeline_terminates). "
               "NOT PROVED, tested: optimiser termination/UB-freedom, the converter's UB constructors, the VGM play loop (MD_Driver), the linker, instrument/platform-command inputs outside the "
               "C09/C11 models; and — for every stage — memory safety / UB-freedom of the compiled binary, which is observed by ASan+UBSan (alignment on) on generated inputs in a forked child "
               "with CPU limits, every outcome other than ok or an InputError with a message being a finding keyed by (class, first repository frame).")
 LEVEL_NOTE = ("Partial by construction. UNDER A THEOREM (all inputs): MML reader (parse stage), track/song validator, WAV loader, RIFF get_chunk/constructor, Conf::from_string, VGM_Writer buffer "
               "arithmetic, composition of stage outcomes. HYPOTHESES of the composite theorem (StageHyps, Proofs/PipelineStages): optimizeStage routed (C01 does not prove termination), MdsNoUB "
-              "(Model/MdsFile never returns codec/headerWrap/bankIndex/riff/fuel), Residual routed (VGM play loop, linker, definitions or platform commands outside Model/MdsData / MdsPlatform, "
-              "a parsed song with an explicit END event — the reader emits none, not proved). ONLY UNDER SANITIZER EXECUTION: those hypotheses, the tools' main(), and memory safety of the real "
+              "(Model/MdsFile never returns codec/headerWrap/bankIndex/riff/fuel), Residual routed (VGM play loop, linker, definitions or platform commands outside Model/MdsData / MdsPlatform). ONLY UNDER SANITIZER EXECUTION: those hypotheses, the tools' main(), and memory safety of the real "
               "binary in every stage. The executable pipeline model is compared per stage with the implementation on every generated input within stated bounds (EXPLANATION). Trusted: g++/ASan/UBSan "
               "runtimes, harness/h_total.cpp, the CPU limit as the definition of a hang, the Lean kernel and compiler, the hand-written models (Mml, Lexer, TrackBuilder, Tags, Player, Optimizer, "
               "MdsData, MdsConv, MdsFile, Wave, Riff) whose agreement with the code is established by differential testing here and in C01/C04/C05/C09/C11/C14/C17/C18, not proved.")
